@@ -4,6 +4,7 @@ package vsasl
 
 import (
 	"bytes"
+	"context"
 	"errors"
 	"fmt"
 	"io"
@@ -11,11 +12,13 @@ import (
 	"net"
 	"os"
 	"path/filepath"
+	"reflect"
 	"strings"
 	"sync"
 	"syscall"
 	"testing"
 	"time"
+	"unsafe"
 
 	"github.com/whawty/auth/sasl"
 	"github.com/whawty/auth/zz_verif/vlib"
@@ -27,6 +30,7 @@ type c05Outcome struct {
 	MsgLen  int    `json:"msg_len"`
 	MsgCls  string `json:"msg_cls"`
 	Err     bool   `json:"err"`
+	ErrKind string `json:"err_kind,omitempty"`
 	DelayMS int    `json:"callback_ms,omitempty"`
 	msg     string
 }
@@ -120,7 +124,40 @@ func genC05Conn(t *rapid.T, tag string) c05Conn {
 	n := rapid.SampledFrom([]int{0, 1, 10, 60, 252, 253, 254, 255, 256, 257, 300, 1000, 65532, 65533, 70000}).Draw(t, "msglen")
 	c.Out.OK, c.Out.Err, c.Out.MsgLen = rapid.Bool().Draw(t, "cbok"), rapid.IntRange(0, 3).Draw(t, "cberr") == 0, n
 	c.Out.msg, c.Out.MsgCls = genMsg(t, n)
+	if c.Out.Err {
+		// what a real backend fails with: plain errors, and errors that look "temporary" / like a time-out / like the end of a
+		// stream to code that inspects them.  Whatever it is, an error is a denial and the callback is not asked again.
+		c.Out.ErrKind = rapid.SampledFrom([]string{"plain", "plain", "EMFILE", "wrapped-EINTR", "EAGAIN", "deadline", "net-timeout", "EOF", "context", "nil-typed"}).Draw(t, "errkind")
+	}
 	return c
+}
+
+type tempErr struct{}
+
+func (tempErr) Error() string   { return "i/o timeout" }
+func (tempErr) Timeout() bool   { return true }
+func (tempErr) Temporary() bool { return true }
+
+func c05Error(kind, msg string) error {
+	switch kind {
+	case "EMFILE":
+		return &os.PathError{Op: "open", Path: "/store/x.user", Err: syscall.EMFILE}
+	case "wrapped-EINTR":
+		return fmt.Errorf("backend: %w", syscall.EINTR)
+	case "EAGAIN":
+		return syscall.EAGAIN
+	case "deadline":
+		return os.ErrDeadlineExceeded
+	case "net-timeout":
+		return &net.OpError{Op: "dial", Net: "tcp", Err: tempErr{}}
+	case "EOF":
+		return io.EOF
+	case "context":
+		return context.DeadlineExceeded
+	case "nil-typed":
+		return fmt.Errorf("%w", errors.New(""))
+	}
+	return errors.New("backend failure: " + msg)
 }
 
 type cbCall struct{ f [4]string }
@@ -175,9 +212,14 @@ func runC05Case(t *rapid.T, conns []c05Conn) {
 		}
 		defer os.RemoveAll(dir)
 		sock := filepath.Join(dir, "s")
-		ln, err := net.ListenUnix("unix", &net.UnixAddr{Name: sock, Net: "unix"})
-		if err != nil {
-			t.Fatalf("VERIF-INFRA %v", err)
+		// both constructors: from a path (the server makes its own listener) and from a listener handed over (socket activation)
+		viaPath := len(conns) > 0 && len(conns[0].Stream)%2 == 1
+		var ln *net.UnixListener
+		if !viaPath {
+			ln, err = net.ListenUnix("unix", &net.UnixAddr{Name: sock, Net: "unix"})
+			if err != nil {
+				t.Fatalf("VERIF-INFRA %v", err)
+			}
 		}
 		var mu sync.Mutex
 		var calls []cbCall
@@ -187,11 +229,14 @@ func runC05Case(t *rapid.T, conns []c05Conn) {
 				outcomes[c.fields] = c.Out
 			}
 		}
-		srv, _ := sasl.NewServerFromListener(ln, func(l, p, s, r string) (bool, string, error) {
+		seen := map[[4]string]int{}
+		cb := func(l, p, s, r string) (bool, string, error) {
 			k := [4]string{l, p, s, r}
 			mu.Lock()
 			calls = append(calls, cbCall{k})
 			o, known := outcomes[k]
+			seen[k]++
+			ncalls := seen[k]
 			mu.Unlock()
 			if !known {
 				return false, "unexpected", nil
@@ -200,13 +245,41 @@ func runC05Case(t *rapid.T, conns []c05Conn) {
 				time.Sleep(time.Duration(o.DelayMS) * time.Millisecond)
 			}
 			if o.Err {
-				return o.OK, o.msg, errors.New("backend failure: " + o.msg)
+				if ncalls > 1 {
+					// asked again for the same request (which no connection sent twice): a backend whose trouble is over approves
+					return true, o.msg, nil
+				}
+				vlib.Class("callback-error:" + o.ErrKind)
+				return o.OK, o.msg, c05Error(o.ErrKind, o.msg)
 			}
 			return o.OK, o.msg, nil
-		})
+		}
+		var srv *sasl.Server
+		if viaPath {
+			srv, err = sasl.NewServer(sock, cb)
+			if err != nil {
+				t.Fatalf("VERIF-INFRA NewServer: %v", err)
+			}
+			vlib.Class("server:NewServer(path)")
+		} else {
+			srv, _ = sasl.NewServerFromListener(ln, cb)
+		}
 		done := make(chan struct{})
 		go func() { srv.Run(); close(done) }()
-		defer func() { ln.Close(); <-done }()
+		defer func() {
+			if ln != nil {
+				ln.Close()
+				<-done
+				return
+			}
+			// NewServer keeps its listener to itself; reach it so that the accept loop of this case ends
+			if f := reflect.ValueOf(srv).Elem().FieldByName("ln"); f.IsValid() && f.CanAddr() {
+				if l, ok := reflect.NewAt(f.Type(), unsafe.Pointer(f.UnsafeAddr())).Elem().Interface().(net.Listener); ok && l != nil {
+					l.Close()
+					<-done
+				}
+			}
+		}()
 
 		type result struct {
 			reply   []byte
